@@ -457,6 +457,12 @@ func (x *Exec) staticCallInst(st *State, e *ast.CallExpr, fn *types.Func, inst *
 		if spec.Kind == "extern" || spec.Flags["trusted"] {
 			x.assumed[fmt.Sprintf("assumed contract of %s (%s)", fn.FullName(), spec.Kind)] = true
 		}
+		if spec.Flags["trusted"] && u != nil && u.Body != nil {
+			// trusted for the pinned body only (see verifyUnit)
+			if want, ok := x.en.trustedPins()[u.Name]; !ok || want != x.en.bodyPin(u) {
+				x.undecide("call of %s: its body changed since its trusted contract was reviewed (pin %s, now %s); the contract is not trusted for this body", u.Name, want, x.en.bodyPin(u))
+			}
+		}
 		x.contractCall(st, e, spec, sig, fn.FullName(), recv, args, nil, k)
 		return
 	}
